@@ -128,6 +128,8 @@ type Contracts struct {
 	Regions  map[string]string // type name -> region
 	PureNames map[string]*FuncContract
 	Guarded  map[string]string // field key "T.f" -> mutex field "T.m"
+	FreshOnlyTypes []string
+	FreshOnlyProps map[string][]string
 	Counted  map[string]bool   // callees named in a calls("...") expression somewhere in the contracts
 	Monotone map[string]bool   // "T.f": boolean field that never goes from true to false
 	Preserved map[string][]string // "T.f": field restored by every function before it returns
@@ -142,7 +144,7 @@ var countedRe = regexp.MustCompile(`calls\("([^"]+)"\)`)
 
 func ParseContractsFile(path string) (*Contracts, error) {
 	cs := &Contracts{Path: path, Funcs: map[string]*FuncContract{}, TypeInvs: map[string]*TypeInv{},
-		Specs: map[string]*SpecFn{}, Ghosts: map[string]*GhostVar{}, Regions: map[string]string{}, PureNames: map[string]*FuncContract{}, Guarded: map[string]string{}, Counted: map[string]bool{}, Monotone: map[string]bool{}, Preserved: map[string][]string{}, Callers: map[string][]string{}, CallersProps: map[string][]string{}, Writers: map[string][]string{}, WritersProps: map[string][]string{}}
+		Specs: map[string]*SpecFn{}, Ghosts: map[string]*GhostVar{}, Regions: map[string]string{}, PureNames: map[string]*FuncContract{}, Guarded: map[string]string{}, Counted: map[string]bool{}, FreshOnlyProps: map[string][]string{}, Monotone: map[string]bool{}, Preserved: map[string][]string{}, Callers: map[string][]string{}, CallersProps: map[string][]string{}, Writers: map[string][]string{}, WritersProps: map[string][]string{}}
 	f, err := os.Open(path)
 	if err != nil {
 		if os.IsNotExist(err) {
@@ -377,6 +379,15 @@ func ParseContractsFile(path string) (*Contracts, error) {
 			}
 			cs.Callers[fsx[0]] = fsx[1:]
 			cs.CallersProps[fsx[0]] = props
+			cur, curType = nil, nil
+		case "freshonly":
+			// freshonly {props} T [T...] : every field of the struct types is written only on objects the
+			// writing function allocated itself (compiled tree nodes are immutable once built)
+			props, r := parseProps(rest)
+			for _, tn := range strings.Fields(r) {
+				cs.FreshOnlyTypes = append(cs.FreshOnlyTypes, tn)
+				cs.FreshOnlyProps[tn] = props
+			}
 			cur, curType = nil, nil
 		case "writers":
 			// writers {props} <key> <func> <func> ...
